@@ -169,6 +169,10 @@ class Path:
         self.counter += 1
         return z3.Const("%s!%d" % (hint, self.counter), sort)
 
+    def qcounter(self):
+        self.qn = getattr(self, "qn", 0) + 1
+        return self.qn
+
     def fresh_name(self, hint):
         self.counter += 1
         return "%s!%d" % (hint, self.counter)
@@ -182,6 +186,19 @@ class Path:
             self.qf.add(phi)
 
     def _check(self, extra):
+        # identical (pc, goal) pairs recur because every path re-executes the common prefix; z3 terms are
+        # hash-consed, so ids identify them
+        key = (tuple(f.get_id() for f in self.pc), extra.get_id())
+        hit = self.ver.check_cache.get(key)
+        if hit is not None and hit[0] == z3.unsat:
+            return hit
+        r = self._check_nocache(extra)
+        if r[0] == z3.unsat:
+            self.ver.check_cache[key] = r
+            self.ver.keep_alive.append((list(self.pc), extra))
+        return r
+
+    def _check_nocache(self, extra):
         t0 = time.time()
         # a fresh, non-incremental solver per obligation: z3's incremental mode (push/pop) uses a much
         # weaker strategy on quantified goals (10 s unknown vs 50 ms unsat on the same goal)
@@ -209,6 +226,16 @@ class Path:
     def feasible(self, c):
         """may this condition hold on the current path?  `unknown` counts as feasible (sound:
         an infeasible path explored needlessly can only make obligations vacuously true)."""
+        key = ("feas", tuple(f.get_id() for f in self.pc), c.get_id())
+        hit = self.ver.check_cache.get(key)
+        if hit is not None:
+            return hit
+        r = self._feasible_nocache(c)
+        self.ver.check_cache[key] = r
+        self.ver.keep_alive.append((list(self.pc), c))
+        return r
+
+    def _feasible_nocache(self, c):
         t0 = time.time()
         try:
             if not _has_quant(c):
@@ -231,6 +258,15 @@ class Path:
             self.ver.queries += 1
             if TRACE and dt > 0.5:
                 print("   [feas %.2fs]" % dt, str(c)[:100])
+
+    def known(self, cond):
+        """is cond implied by the path condition? (cheap check; False when not established quickly)"""
+        c = z3.simplify(cond)
+        if z3.is_true(c):
+            return True
+        if z3.is_false(c):
+            return False
+        return not self.feasible(z3.Not(c))
 
     def branch(self, cond):
         c = z3.simplify(cond)
@@ -289,7 +325,8 @@ class Path:
             print("   dumped", name, "->", fn)
         if r == z3.unsat:
             self.ver.record(Obligation(name, kind, "proved", path=list(self.taken), seconds=dt, where=where))
-            self.assume(p)
+            if kind != "post":
+                self.assume(p)
             return True
         if r == z3.sat:
             inputs = None
